@@ -50,7 +50,7 @@ func compSort(name string) Sort {
 		return ArraySort(SInt, SInt)
 	case name == "BIG":
 		return ArraySort(SAddr, SInt)
-	case name == "alloc", name == "epoch":
+	case name == "alloc", name == "epoch", name == "vepoch":
 		return SInt
 	case strings.HasPrefix(name, "G:"):
 		// G:<sort>:<name>
@@ -310,8 +310,12 @@ func (u *Unit) typeInv(v Term, t types.Type, alloc Term) Term {
 		}
 		return True
 	case *types.Pointer:
-		return And(Lt(App(SInt, "aobj", v), alloc),
+		inv := And(Lt(App(SInt, "aobj", v), alloc),
 			Implies(Eq(App(SInt, "aobj", v), IntLit(0)), Eq(v, NilAddr)))
+		if isMsgStruct(ut.Elem()) {
+			inv = And(inv, Implies(Neq(App(SInt, "aobj", v), IntLit(0)), App(SBool, "is_msg_obj", App(SInt, "aobj", v))))
+		}
+		return inv
 	case *types.Slice:
 		return App(SBool, "slice_ok", v, alloc)
 	case *types.Map:
@@ -329,4 +333,17 @@ func (u *Unit) typeInv(v Term, t types.Type, alloc Term) Term {
 		return True
 	}
 	return True
+}
+
+// isMsgStruct: top-level message structures, which are never header values.
+func isMsgStruct(t types.Type) bool {
+	n, ok := t.(*types.Named)
+	if !ok || n.Obj().Pkg() == nil || n.Obj().Pkg().Path() != "github.com/veraison/go-cose" {
+		return false
+	}
+	switch n.Obj().Name() {
+	case "Sign1Message", "UntaggedSign1Message", "SignMessage":
+		return true
+	}
+	return false
 }
